@@ -18,6 +18,7 @@ import (
 	"google.golang.org/grpc"
 	"google.golang.org/grpc/metadata"
 
+	"seata.apache.org/seata-go/pkg/constant"
 	sdubbo "seata.apache.org/seata-go/pkg/integration/dubbo"
 	sgin "seata.apache.org/seata-go/pkg/integration/gin"
 	sgrpc "seata.apache.org/seata-go/pkg/integration/grpc"
@@ -58,7 +59,7 @@ func genC07Node(g *simkit.Gen, depth int, shared bool) *C07Node {
 			if shared && g.Prob(0.5) {
 				c.Link = "same"
 			} else {
-				c.Link = simkit.Pick(g, []string{"fresh", "fresh", "grpc", "grpc-lower", "gin", "gin-lower", "dubbo", "dubbo-golower", "dubbo-java", "dubbo-lower"})
+				c.Link = simkit.Pick(g, []string{"fresh", "fresh", "grpc", "grpc-lower", "grpc-fwd", "gin", "gin-lower", "dubbo", "dubbo-golower", "dubbo-java", "dubbo-lower"})
 			}
 			n.Children = append(n.Children, c)
 		}
@@ -154,6 +155,8 @@ type c07Obs struct {
 	ret      map[string]error
 	intact   []string // violations of "enclosing scope intact after inner scope returns"
 	panicked map[string]interface{}
+	// entering: xid under which the scope making the current call was entered
+	entering string
 }
 
 type dubboInvoker struct {
@@ -174,10 +177,15 @@ func (o *c07Obs) exec(ctx context.Context, n *C07Node) {
 			o.panicked[n.name] = r
 		}
 	}()
+	enteringXid := ""
+	if tm.IsSeataContext(ctx) {
+		enteringXid = tm.GetXID(ctx)
+	}
 	err := tm.WithGlobalTx(ctx, &tm.GtxConfig{Name: n.name, Propagation: c07PropVal[n.Prop], Timeout: 60 * time.Second}, func(c context.Context) error {
 		o.ran[n.name] = true
 		o.sawXid[n.name] = tm.GetXID(c)
 		for _, ch := range n.Children {
+			o.entering = enteringXid
 			bx, bname := tm.GetXID(c), tm.GetTxName(c)
 			var brole tm.GlobalTransactionRole
 			if r := tm.GetTxRole(c); r != nil {
@@ -213,7 +221,17 @@ func (o *c07Obs) call(c context.Context, ch *C07Node) {
 			tm.SetXID(nc, xid)
 		}
 		o.exec(nc, ch)
-	case "grpc", "grpc-lower":
+	case "grpc", "grpc-lower", "grpc-fwd":
+		if ch.Link == "grpc-fwd" {
+			// a service in the middle of a call chain forwards the metadata it was
+			// called with (trace id ... and the xid it was entered under, which is
+			// not the current one inside a RequiresNew / NotSupported scope)
+			fwd := metadata.MD{"trace-id": []string{"t-" + ch.name}}
+			if o.entering != "" {
+				fwd[constant.XidKeyLowercase] = []string{o.entering}
+			}
+			c = metadata.NewOutgoingContext(c, fwd)
+		}
 		invoker := func(ctx context.Context, method string, req, reply interface{}, cc *grpc.ClientConn, opts ...grpc.CallOption) error {
 			md, _ := metadata.FromOutgoingContext(ctx)
 			in := metadata.MD{}
